@@ -23,7 +23,7 @@ import (
 type Script struct {
 	Listen string       `json:"listen,omitempty"` // "" none | unix | tcp
 	Steps  []ScriptStep `json:"steps"`
-	End    string       `json:"end,omitempty"` // stay (default) | exit:<code> | closeout | closeboth
+	End    string       `json:"end,omitempty"` // stay (default) | exit:<code> | closeout | closeerr | closeboth
 }
 
 type ScriptStep struct {
@@ -34,8 +34,12 @@ type ScriptStep struct {
 	GapNS   int64  `json:"g,omitempty"` // wait between pieces
 }
 
-func Out(text string) ScriptStep { return ScriptStep{Stream: "out", Data: base64.StdEncoding.EncodeToString([]byte(text))} }
-func Err(text string) ScriptStep { return ScriptStep{Stream: "err", Data: base64.StdEncoding.EncodeToString([]byte(text))} }
+func Out(text string) ScriptStep {
+	return ScriptStep{Stream: "out", Data: base64.StdEncoding.EncodeToString([]byte(text))}
+}
+func Err(text string) ScriptStep {
+	return ScriptStep{Stream: "err", Data: base64.StdEncoding.EncodeToString([]byte(text))}
+}
 
 func (s ScriptStep) After(d time.Duration) ScriptStep { s.DelayNS = int64(d); return s }
 func (s ScriptStep) Chunked(n int, gap time.Duration) ScriptStep {
@@ -56,13 +60,13 @@ func DecodeScript(raw string) (*Script, error) {
 
 // ScriptState is what the oracle can read about a scripted plugin afterwards.
 type ScriptState struct {
-	Net, Addr   string
-	Finished    bool // every step was written
-	FinishedAt  time.Duration
-	WriteErr    error
-	Conns       int
-	StepsDone   int
-	Launches    int
+	Net, Addr  string
+	Finished   bool // every step was written
+	FinishedAt time.Duration
+	WriteErr   error
+	Conns      int
+	StepsDone  int
+	Launches   int
 }
 
 // InstallScript registers a scripted plugin program at path.
@@ -145,6 +149,8 @@ func (r *Run) InstallScript(path string, sc *Script) *ScriptState {
 			simos.Exit(code)
 		case "closeout":
 			simos.GetStdout().Close()
+		case "closeerr":
+			simos.GetStderr().Close()
 		case "closeboth":
 			simos.GetStdout().Close()
 			simos.GetStderr().Close()
